@@ -343,6 +343,11 @@ def execute(case, ctx):
         except Exception as exc:
             raise Violation('C13.raise', f'{desc} raised {exc!r}\n--- marked ---\n{marked_src[:600]}\n--- edited (unparsed) ---\n{unp[:600]}', f'raise:{type(exc).__name__}@{fst_site(exc)}:{site}') from None
 
+        if out.src.rstrip(' \t\n').endswith('\\'):
+            ctx.count('result_ends_with_continuation(C01-dangling-continuation-eof family, not re-reported)')
+
+            return
+
         try:
             c01.check_invariant(out, None, 'C13.c01')
         except Violation as v:
